@@ -1,13 +1,19 @@
 //! E5 — generator order / determinism engine (C08, C20).
 mod c08;
+mod c20;
 
 use vcommon::{Args, Report};
 
 fn main() {
+    let raw: Vec<String> = std::env::args().collect();
+    if raw.get(1).map(|s| s.as_str()) == Some("__genlib") {
+        std::process::exit(c20::genlib(&raw[2..]));
+    }
     let args = Args::parse();
     vcommon::quiet_panics();
     let report: Report = match args.property.as_str() {
         "C08" => c08::run(&args),
+        "C20" => c20::run(&args),
         other => panic!("cgorder: unknown property {}", other),
     };
     report.write(&args.out);
